@@ -707,6 +707,13 @@ class Run:
         return [(m, a, ph == "exiting") for (m, a, ph) in self.truth.get(owner, ()) if ph != "entering"]
 
 
+# code of a finished or abandoned target may still run later (finalisation of generators that a
+# dropped result kept alive): it then talks to this inert run instead of a live one
+_DEAD = Run()
+_DEAD.aborted = True
+_CUR[0] = _DEAD
+
+
 def _c():
     R = _CUR[0]
     R.tick()
@@ -2106,7 +2113,7 @@ def trickery_sequences(col, tier, seed):
     finally:
         ll.set_trickery_enabled(None)
         co.close()
-        _CUR[0] = None
+        _CUR[0] = _DEAD
 
 
 FAULT_HELPERS = ("analyze_with_blocks", "inspect_frame", "currently_exiting_context",
